@@ -739,7 +739,8 @@ def mon_C05(blocks):
                         out.append(Violation(b.idx, "replaced id resolved to a different session"))
                     if not b.cks or b.cks[-1]["value"] != rid:
                         out.append(Violation(b.idx, "cookie not redirected to the session's current id %s" % rid))
-            if (d, why) == ("refuse", "backstop") and v in g.replaced and since_repl < lim - gran(a.codec) and final is not None and b.ret != "sess":
+            if ((d, why) == ("refuse", "backstop") and v in g.replaced and since_repl < lim - gran(a.codec) and final is not None and b.ret != "sess"
+                    and cfg["idExpiry"] >= 0 and since_repl < cfg["idExpiry"] + cfg["grace"] - gran(a.codec)):
                 # the record claims an age beyond SessionIDExpiry + grace although the id was replaced only a moment ago: the
                 # age of a replaced id counts from its replacement, not from whatever its record carries
                 out.append(Violation(b.idx, "replaced id presented %d after replacement (grace %d) was refused as long expired: its record is dated %d before the replacement" % (
